@@ -134,6 +134,45 @@ check("C19", "model_checking",
       "bounded histories (<= 3 steps exhaustive, <= 12 simulated); argument immutability is an observation per call, not a proof",
       "TLA+ state machine checked by TLC; spec behaviours replayed into the classes; trace validation by TLC", "DESIGN 3 C19")
 
+check("C04", "exploration",
+      "Every conversion function and method is called on seeded models of every kind (raw dicts with unsorted / repeated labels, six "
+      "labelled types, four Matrix types); spec/CheckPure.tla (TLC) canonicalises the returned terms itself (FromRaw) and compares them "
+      "with the specification's conversion of the source: ToSpinNum / ToBool (laws proved in PolyLaws), Relabel by the mapping for "
+      "to_pubo/puso/qubo/quso/enumerated, value after convert_solution for EVERY assignment as dict / list / tuple in boolean and spin "
+      "form, exports Q, h/J, qubo_to_matrix (symmetric or not), matrix_to_qubo up to the constant, and the documented result types.",
+      "seeded exploration (3000 quick / 20000 thorough cases), models with <= 4 variables and degree <= 3, integer / half-integer coefficients (exact arithmetic); trusted: TLC, the record encoder; result types judged only where the docstrings fix them", "real calls recorded; pinned results compared by TLC with the "
+      "TLA+ definition of the conversion", "DESIGN 3 C04")
+check("C07", "exploration",
+      "Seeded expression trees over the eight builders (depth <= 2, 3 thorough; arity 1-5; leaves: labels of mixed types or 0/1-valued "
+      "models of five boolean kinds) are built with the real functions; spec/CheckPure.tla evaluates the tree's truth table recursively, "
+      "Moebius-inverts it to the unique multilinear polynomial and compares it with the canonical form of the returned model; inputs "
+      "unchanged. The design-level counterpart (builders' fold constructions satisfy their truth functions) is checked in C06's config.",
+      "seeded exploration (3000 quick / 20000 thorough cases), models with <= 4 variables and degree <= 3, integer / half-integer coefficients (exact arithmetic); trusted: TLC, the record encoder; a KeyError is accepted when a QUBO/QUBOMatrix leaf takes part", "real calls recorded; truth function defined in TLA+, "
+      "result compared by TLC", "DESIGN 3 C07")
+check("C09", "model_checking",
+      "Seeded calls of the four solve_*_bruteforce functions and the solve_bruteforce methods (dict / labelled / Matrix models, offsets, "
+      "constant and empty models, raw dicts, validity predicates from a named family, all_solutions both ways); spec/CheckSolve.tla "
+      "(TLC) has one state per (call, assignment): no valid assignment lies below the objective, the reported solutions are valid "
+      "minimisers over exactly the model's variables, with all_solutions every valid minimiser is reported exactly once, objective None "
+      "iff nothing is valid, constant models, argument unchanged.",
+      "models with <= 4 variables (every assignment enumerated by TLC), 2500 quick / 15000 thorough calls; the constant-model sentence "
+      "takes precedence over the None sentence where they compete; trusted: TLC, record encoder",
+      "real calls recorded; solver contract written in TLA+ and evaluated by TLC over all assignments", "DESIGN 3 C09")
+check("C15", "exploration",
+      "Seeded calls of the four approximate_*_extrema functions on dicts and every model kind; spec/CheckPure.tla has one state per "
+      "(call, assignment) and asserts lo <= value <= hi, and lo = hi = constant for constant models; anneal_temperature_range is called on "
+      "a grid of admissible probability pairs incl. 0 and the recorded booleans T0 >= Tf, Tf >= 0, (0,0) without variables are asserted. "
+      "The transcription ApproxB / ApproxS encloses the true extrema for every polynomial on 3 labels (PolyLaws, C05 design check).",
+      "seeded exploration (3000 quick / 20000 thorough cases), models with <= 4 variables and degree <= 3, integer / half-integer coefficients (exact arithmetic); trusted: TLC, the record encoder; the temperature-range clause is a direct observation of the API (logarithms are outside TLA+)",
+      "real calls recorded; enclosure checked by TLC on every assignment", "DESIGN 3 C15")
+check("C18", "exploration",
+      "Seeded calls of subvalue / subgraph / normalize (functions and methods) and symbolic subvalue on dicts and every model kind, "
+      "partial assignments (domain values and other small integers), node sets, connection maps incl. None; spec/CheckPure.tla compares "
+      "the canonical result with Poly.SubValue / SubGraph (laws in PolyLaws), checks the common factor and maximum of normalize by cross "
+      "multiplication, the result type, and that symbolic substitution followed by subs equals numeric substitution.",
+      "seeded exploration (3000 quick / 20000 thorough cases), models with <= 4 variables and degree <= 3, integer / half-integer coefficients (exact arithmetic); trusted: TLC, the record encoder; raw dicts that repeat a label inside a key only with domain values (no agreed meaning otherwise)",
+      "real calls recorded; pinned results compared by TLC with the TLA+ definition", "DESIGN 3 C18")
+
 
 def build():
     props = [json.loads(l)["id"] for l in open(os.path.join(VERIF, "properties.jsonl"))]
